@@ -303,6 +303,7 @@ def array_task(kind, deriv, dtype='float64', quantities=('isna', 'bounds', 'tota
     if 'intersects_bounds' in quantities:
         canon = [as_bool_term(canon_intersects_bounds(it, kind, s, box)) for s in syms]
         o = guarded(lambda: it.call(attr(arr, 'intersects_bounds'), [box]))
+        o_arr = o
         if o.exc:
             findings.append(('intersects_bounds', 'array', 'raises', o.exc))
         elif len(o.vals) != n:
@@ -318,15 +319,15 @@ def array_task(kind, deriv, dtype='float64', quantities=('isna', 'bounds', 'tota
                     findings.append(('intersects_bounds', f'inds={inds}', 'mismatch', f'length {len(o.vals)}'))
                 else:
                     checks.append((f'intersects_bounds[inds={inds}]', z3.Or(*[as_bool_term(o.vals[k]) != canon[j] for k, j in enumerate(inds)])))
-        if inert and not o.exc and len(o.vals) == n:
+        if inert and not o_arr.exc and len(o_arr.vals) == n:
             # an element without any finite coordinate never intersects a box
             terms = []
             for j in range(n):
                 cs = [Num.lift(c) for c in T.coords_of(kind, syms[j])]
                 if syms[j] is not None and cs:
-                    terms.append(z3.And(*[z3.Not(c13.finite(c)) for c in cs], as_bool_term(o.vals[j])))
+                    terms.append(z3.And(*[z3.Not(c13.finite(c)) for c in cs], as_bool_term(o_arr.vals[j])))
                 elif syms[j] is None or not cs:
-                    terms.append(as_bool_term(o.vals[j]))
+                    terms.append(as_bool_term(o_arr.vals[j]))
             checks.append(('inert element never intersects', z3.Or(*terms) if terms else z3.BoolVal(False)))
         for j in range(n):
             def scalar(j=j):
@@ -543,6 +544,20 @@ def replay_finding(kind, specs, deriv, dtype, finding):
     wit = {'kind': kind, 'specs': specs, 'derivation': deriv, 'dtype': dtype, 'quantity': quantity.split('[')[0], 'form': form,
            'elements': [None if arr[j] is None else (arr[j].data.as_py() if kind != 'point' else arr[j].flat_values.tolist()) for j in range(len(arr))],
            'box': box}
+    if quantity.startswith('inert element'):
+        import math
+        wit['quantity'], wit['form'] = 'intersects_bounds', 'array'
+        try:
+            got = [bool(x) for x in arr.intersects_bounds(box)]
+        except Exception as e:  # noqa: BLE001
+            wit['got'] = f'raises {type(e).__name__}: {str(e)[:160]}'
+            return True, wit
+
+        def flat(x):
+            return [c for y in x for c in flat(y)] if isinstance(x, list) else [x]
+        inert_rows = [j for j in range(len(arr)) if arr[j] is None or not any(math.isfinite(c) for c in flat(wit['elements'][j]))]
+        wit.update(got=got, expected='False for the inert rows ' + str(inert_rows))
+        return any(got[j] for j in inert_rows), wit
     if quantity == 'elements' or quantity == 'source':
         # tag identity is concrete: re-derive and compare with the reference selection
         ids = DERIVS[deriv][1](list(range(len(src))))
